@@ -55,6 +55,7 @@ type access struct {
 	tid, clock int
 	site       string
 	write      bool
+	atomic     bool // performed through sync/atomic: conflicts only with plain accesses
 }
 
 type shadow struct {
@@ -103,14 +104,21 @@ func siteOf(a *access) string {
 	if a.write {
 		k = "w"
 	}
+	if a.atomic {
+		k = "atomic-" + k
+	}
 	return k + "@" + a.site
 }
 
 func recordAccess(p unsafe.Pointer, write bool, field, site string) {
+	recordAccessKind(p, write, false, field, site)
+}
+
+func recordAccessKind(p unsafe.Pointer, write, atomic bool, field, site string) {
 	if !hbActive() || foreignQuiet() {
 		return
 	}
-	if RacePointsAreSchedulingPoints {
+	if RacePointsAreSchedulingPoints && !atomic {
 		yield(pendingOp{kind: opYield, what: "access " + field})
 		if w == nil || w.aborting {
 			return
@@ -123,10 +131,16 @@ func recordAccess(p unsafe.Pointer, write bool, field, site string) {
 		sh = &shadow{reads: map[int]*access{}}
 		st.shadows[p] = sh
 	}
-	me := &access{tid: t.ID, clock: t.vc.get(t.ID), site: site, write: write}
+	me := &access{tid: t.ID, clock: t.vc.get(t.ID), site: site, write: write, atomic: atomic}
 	report := func(o *access) {
 		if o.tid == t.ID || o.clock <= t.vc.get(o.tid) {
 			return // same thread, or ordered before this access
+		}
+		if o.atomic && me.atomic {
+			return // two atomic operations never race
+		}
+		if field == "" {
+			field = "atomic cell"
 		}
 		a, b := siteOf(o), siteOf(me)
 		if b < a {
@@ -196,6 +210,8 @@ func AtomicAt(p unsafe.Pointer, write bool) {
 	if !hbActive() || foreignQuiet() {
 		return
 	}
+	// an atomic operation conflicts with an unordered PLAIN access to the same word
+	recordAccessKind(p, write, true, "", callerPos(3))
 	st := w.rs()
 	hbAcquire(st.atomics[p])
 	if write {
